@@ -76,6 +76,10 @@ def warm_start(
             logger.error("Warm start: No value for variable %s", var)
             raise SystemExit(1)
 
+        if state.dtypes.get(var) == bool:
+            # Flags stored as integers on file (for instance alive or active as i1) stay boolean
+            values = np.asarray(values).astype(bool)
+
         state.variables[var] = values
 
     # # Instance variables with default
